@@ -664,3 +664,15 @@ def budget(tier):
     if tier == "quick":
         return dict(machines=208, custom_shards=8, enum_shards=16, wall_s=90)
     return dict(machines=3200, custom_shards=16, enum_shards=16, wall_s=900)
+
+
+def evidence_extra(tier):
+    n = len(enumerate_cases(tier))
+    return {
+        "exhaustive_part": {
+            "exhaustive": True,
+            "cases": n,
+            "domain": f"all histories of length 1..{3 if tier == 'quick' else 4} over the 18-letter alphabet "
+                      "{set,get,del,in,approx} x {A,B,C} + {reopen-read, reopen-edit, deepcopy-and-switch}",
+        }
+    }
